@@ -148,6 +148,18 @@ def gen_file(rel):
     return good
 
 
+def gen_ref():
+    """the tables regenerated from the pristine snapshot (not the ones lying in /verif/lean, which the last check run rewrote from whatever
+    tree /repo held at that moment)"""
+    d = os.path.join(SCRATCH, 'gen_ref')
+    if not os.path.exists(d):
+        os.makedirs(d)
+        sys.path.insert(0, VERIF)
+        from harness import translate
+        translate.regenerate(SRC_REPO, d)
+    return d
+
+
 def snapshot():
     if not os.path.exists(SRC_REPO):
         os.makedirs(SRC_REPO)
@@ -190,7 +202,7 @@ def cmd_one(m):
         translate.regenerate(repo, gen_tmp)
         for fn in os.listdir(gen_tmp):
             a = open(os.path.join(gen_tmp, fn)).read()
-            b = open(os.path.join(VERIF, 'lean', 'RSocketModel', 'Gen', fn)).read()
+            b = open(os.path.join(os.environ.get('MUT_GEN_REF') or os.path.join(VERIF, 'lean', 'RSocketModel', 'Gen'), fn)).read()
             if a != b:
                 return {'detected': 'translator', 'by': fn}
     except Exception as e:
@@ -232,7 +244,7 @@ def run_mutant(k, m, timeout=420):
     path = os.path.join(d, m['file'])
     orig = open(os.path.join(SRC_REPO, m['file']), 'rb').read()
     open(path, 'wb').write(orig[:m['start']] + m['new'].encode('utf-8') + orig[m['end']:])
-    env = dict(os.environ, VERIF_REPO=d, PYTHONPATH=VERIF, PYTHONHASHSEED='0', PYTHONDONTWRITEBYTECODE='1', VERIF_CASE_TIMEOUT='4')
+    env = dict(os.environ, VERIF_REPO=d, PYTHONPATH=VERIF, PYTHONHASHSEED='0', PYTHONDONTWRITEBYTECODE='1', VERIF_CASE_TIMEOUT='4', MUT_GEN_REF=gen_ref())
     t0 = time.time()
     try:
         p = subprocess.run(['/venv/bin/python', '-m', 'harness.mutate', 'one', json.dumps(m)], cwd=VERIF, env=env, capture_output=True, text=True, timeout=timeout)
